@@ -44,6 +44,11 @@ REQUIRED_THEOREMS = [
     "parse_most_specific_wins", "unknown_key_ignored", "lowHigh_is_pair", "seq_is_pair", "formats_agree", "lowHigh_incomplete_is_error",
     "seq_wrong_length_is_error", "unspecified_is_error", "unspecified_side_is_error", "auto_periodic_resolves",
     "periodicity_consistent", "parse_periodicity_consistent", "parse_length", "alias_table_classes",
+    # Props/C02b: the complete setter of a grid
+    "boundaryFaces_compatible", "setBoundaries_holds", "setBoundaries_fixed", "setBoundaries_frame",
+    "setBoundaries_order_irrelevant", "setBoundaries_robin", "setBoundaries_exprMixed",
+    "setBoundariesLinked_holds", "setBoundariesLinked_value", "setBoundariesLinked_current",
+    "parse_dict_axis", "parse_dict_pair",
 ]
 RULE = ("ghost leg: seed-derived grids of all classes (1-3 axes, 1-4 cells per axis, dyadic spacings, periodic flags, "
         "holes), field rank 0-2, one condition per side drawn from every class/alias the side admits (value, "
@@ -65,6 +70,7 @@ ASSUMPTIONS = [
     "an infinite Robin coefficient is judged by the limit form of the condition (boundary value 0), as documented for MixedBC",
 ]
 TRUSTED_EXTRA = ["sympy/numba expression compilation for *_expression conditions is external (validated only)"]
+EXTRA_PROP_FILES = ["C02b"]  # the complete setter of a grid (faces generated from the grid); linked values
 MIN_LEGS = {"ghost": 300, "parse": 500, "linked": 20, "reject": 10}
 
 KINDS_LOCAL = ["dirichlet", "neumann", "mixed", "curvature"]
@@ -1071,6 +1077,32 @@ def linked_case2(case, vals2):
     return c2
 
 
+def linked_request(case, vals2, phase):
+    """request of the handler `c02.linked` (= `setBoundariesLinked` of Model/BC.lean): the conditions whose value is
+    linked refer to a slot of the store, the store holds the content of the linked arrays at the time of the call
+    (phase 1: the values as given, phase 2: the overwritten arrays)"""
+    req = model_request(case)
+    items = sorted(case["sides"].items(), key=lambda kv: (kv[0][0], not kv[0][1]))
+    store = []
+    for face, (key, s) in zip(req["faces"], items):
+        assert (face["axis"], face["upper"]) == key
+        if key not in vals2:
+            continue
+        if phase == 1:
+            v, vinf = s["v"], s.get("vinf")
+        else:
+            v, vinf = vals2[key]
+        slot = {"vshape": s["vshape"], "ncomp": case["rank"] - 1 if s["normal"] else case["rank"], "v": [q(x) for x in v]}
+        if vinf and any(vinf):
+            slot["vinf"] = [int(x) for x in vinf]
+        face["cond"]["slot"] = len(store)
+        face["cond"].pop("v", None)       # the condition does not own a value any more
+        face["cond"].pop("vinf", None)
+        store.append(slot)
+    req["store"] = store
+    return req
+
+
 def linked_failure_key(route, phase, m, case):
     key = {"route": route, "phase": phase, "kind": m.get("kind")}
     if m.get("singular"):
@@ -1150,8 +1182,11 @@ def run(ctx):
         v2 = gen_linked(rng, c, ctx.hist)
         if v2:
             lcases.append((c, v2))
-    lreqs = [(batch.add("c02.ghost2", model_request(c)), batch.add("c02.ghost2", model_request(linked_case2(c, v2))))
+    lreqs = [(batch.add("c02.linked", linked_request(c, v2, 1)), batch.add("c02.linked", linked_request(c, v2, 2)))
              for c, v2 in lcases]
+    # the same two states evaluated without links (conditions owning the values): must give the same arrays
+    lreqs_own = [(batch.add("c02.ghost2", model_request(c)), batch.add("c02.ghost2", model_request(linked_case2(c, v2))))
+                 for c, v2 in lcases]
     largs = [(c, {k: [_fl(x, i) for x, i in zip(*v)] for k, v in v2.items()}) for c, v2 in lcases]
     lres_s = run_many("harness.c02", "real_linked", largs, env={"NUMBA_DISABLE_JIT": "1"}, procs=16)
     ljit_ids = list(range(min(n_link_jit, len(lcases))))
@@ -1219,6 +1254,12 @@ def run(ctx):
         st, val = answers[ri]
         if st != "ok":
             return None, val, None
+        # "grid": the request listed every face of the grid in setter order and was evaluated through
+        # `setBoundaries` (the definition the composed theorems of Props/C02b are about)
+        ctx.hist("model definition", "setBoundaries" if val.get("grid") else "setGhostAll (incomplete face list)")
+        if not val.get("grid"):
+            ctx.disagree("ghost:model-definition", {"request": ri}, "complete list of the grid's faces in setter order",
+                         "other", "the model request was not evaluated through setBoundaries")
         return [unq(x) for x in val["a"]], list(val["div0"]), list(val["sing"])
 
     def judge_ghost_case(ci, c, ri):
@@ -1389,6 +1430,12 @@ def run(ctx):
 
     for li, ((c, v2), (r1, r2)) in enumerate(zip(lcases, lreqs)):
         guarded("linked", c, lambda li=li, c=c, v2=v2, r1=r1, r2=r2: judge_linked_case(li, c, v2, r1, r2))
+        # `setBoundariesLinked` with the store of each phase = `setBoundaries` of conditions owning those values
+        for ph, (rl, ro) in enumerate(zip((r1, r2), lreqs_own[li]), 1):
+            ctx.hist("model definition", "setBoundariesLinked")
+            if answers[rl] != answers[ro]:
+                ctx.disagree("linked:model-definition", {"spec": repr(c["spec"]), "grid": c["grid"], "phase": ph},
+                             str(answers[rl])[:300], str(answers[ro])[:300], "setBoundariesLinked differs from setBoundaries")
     # ---- reject leg
     for r, got in zip(rcases, rres):
         rkey = {"grid": r["grid"], "rank": r["rank"], "spec": repr(r["spec"])}
